@@ -65,6 +65,14 @@ class Prop(BaseProp):
                     if f_.lower().endswith(".cmake") and rng.random() < 0.5:
                         tree.files[f_] = tree.files[f_].replace("\n", "\r\n")
                 res.count("trees_with_crlf_files")
+            if rng.random() < 0.35:
+                # files that open with a module doccomment, named ('@module <name>') or not: whatever is said about them while
+                # they are processed, stdout carries the pages and nothing else
+                for f_ in list(tree.files):
+                    if f_.lower().endswith(".cmake") and tree.files[f_] and rng.random() < 0.5:
+                        nm = rng.choice(["", " named.mod_" + "".join(c if c.isalnum() else "_" for c in f_)])
+                        tree.files[f_] = f"#[[[ @module{nm}\n# About this module.\n#]]\n" + tree.files[f_]
+                res.count("trees_with_module_doccomments")
             linked = rng.random() < 0.3
             if linked:
                 tree.files["linked_in.cmake"] = cmake_text("linked_in.cmake", rich=True)
